@@ -910,6 +910,11 @@ func (h *backendHandler) writeResponse(st *rpcState, obs *BackendObs, rw http.Re
 		cut = true
 	}
 	st.respLen = len(rr.body)
+	st.respEndLen = 0
+	if obs.Stream && obs.Protocol != ProtoGRPC && len(rr.bounds) > rr.nmsgs && len(rr.prefixes) == len(rr.bounds) {
+		last := len(rr.bounds) - 1
+		st.respEndLen = rr.bounds[last] - rr.prefixes[last] - 5
+	}
 	st.respComp = rr.comp
 	st.respPayloads = rr.payloads
 	h.writeBody(st, obs, rw, body, rr)
